@@ -116,6 +116,7 @@ fn insert_type(items: &mut Vec<Item>, name: &str, kind: &str, k: usize) -> bool 
     let new_item: Item = match kind {
         "opaque" | "opaque_impl" => parse_quote! { #[diplomat::opaque] pub struct #ident(u8); },
         "struct" => parse_quote! { pub struct #ident { pub verif_a: u8, pub verif_b: i32 } },
+        "trait" => parse_quote! { pub trait #ident { fn verif_m(&self, x: u32) -> u32; } },
         _ => parse_quote! { pub enum #ident { VerifA, VerifB, VerifC } },
     };
     // the target module is chosen among the bridge modules of the *original* source only, so that
